@@ -12,6 +12,8 @@ from .. import canon as cn
 from .. import grid, synth
 from ..core import Report, V
 from .c02 import ref_force
+from .. import hist
+from . import c03
 
 PROP = "C04"
 LEVEL = "exploration"
@@ -118,36 +120,12 @@ def model_reference(mk, pvals, xk):
     return out
 
 
-def case_fn(case):
+def consistency(idnt, mk, seg, k, w, init, viol, range_label=""):
+    """every output relation of the property, recomputed with independent
+    arithmetic, for the fit currently shown on `idnt`.
+    Returns an outcome label."""
     from nanite import model as nmodel
-    register_expr()
-    out = []
-    idnt, tr = make(case["curve"])
-    mk = case["model"]
     md = nmodel.models_available[mk]
-    seg, k, w = case["segment"], case["k"], case["weight_cp"]
-    rtype = case["range_type"]
-    P = md.get_parameter_defaults()
-    if "E" in P and not P["E"].expr:
-        P["E"].set(value=tr["E"] * 1.3)
-    P["contact_point"].set(value=CP + 4e-8)
-    P["baseline"].set(value=tr["baseline"] * 0.5)
-    for name in case["fixed"]:
-        P[name].set(vary=False)
-    init = {n: (P[n].value, P[n].vary, P[n].min, P[n].max, P[n].expr)
-            for n in P}
-    rx = range_of(case["range"], idnt, seg, rtype)
-
-    def viol(clause, wit, detail):
-        out.append(V(PROP, clause, site=f"{mk}:{rtype}", witness=wit,
-                     detail=detail, case=case, kind="grid"))
-    try:
-        idnt.fit_model(model_key=mk, params_initial=P, segment=seg,
-                       range_x=rx, range_type=rtype, weight_cp=w, gcf_k=k)
-    except BaseException as e:
-        if isinstance(e, (KeyboardInterrupt, SystemExit, MemoryError)):
-            raise
-        return out, ("raises", type(e).__name__)
     fp = idnt.fit_properties
     x = np.asarray(idnt["tip position"], dtype=float)
     y = np.asarray(idnt["force"], dtype=float)
@@ -158,15 +136,15 @@ def case_fn(case):
         viol("unsuccessful-nan" if not fp.get("success") else "fit-column",
              "columns-missing", f"after fit_model the columns {missing} do "
              f"not exist (success={fp.get('success')})")
-        return out, ("columns-missing", case["range"])
+        return "columns-missing"
     fit = np.asarray(idnt["fit"], dtype=float)
     res = np.asarray(idnt["fit residuals"], dtype=float)
     rng = np.asarray(idnt["fit range"]).astype(bool)
     if not fp.get("success", False):
         if not (np.all(np.isnan(fit)) and np.all(np.isnan(res))):
-            viol("unsuccessful-nan", case["range"], "success is False but "
+            viol("unsuccessful-nan", range_label, "success is False but "
                  "the fit / residual columns hold numbers")
-        return out, ("unsuccessful", case["range"])
+        return "unsuccessful"
     pf = fp["params_fitted"]
     pv = {n: pf[n].value for n in pf}
     Fmax = np.max(np.abs(y)) + 1e-300
@@ -221,7 +199,7 @@ def case_fn(case):
     # (lmfit floors chi-square at 1e-250 per point for exact fits)
     if not math.isclose(chi, fp["chi_sqr"], rel_tol=1e-9,
                         abs_tol=1e-24 * Fmax ** 2 * max(1, int(rng.sum()))):
-        viol("chi-square", case["range"], f"chi_sqr {fp['chi_sqr']!r} vs "
+        viol("chi-square", range_label, f"chi_sqr {fp['chi_sqr']!r} vs "
              f"sum of squared residuals over the used points {chi!r}")
     if np.any(rng & ~segm):
         viol("fit-nan-elsewhere", "range", "fit range includes points of "
@@ -247,6 +225,42 @@ def case_fn(case):
                             rel_tol=1e-12):
             viol("expr", "E2", f"E2={pf['E2'].value!r} but 2*E="
                  f"{2 * pf['E'].value!r}")
+    return "success"
+
+
+def case_fn(case):
+    from nanite import model as nmodel
+    register_expr()
+    out = []
+    idnt, tr = make(case["curve"])
+    mk = case["model"]
+    md = nmodel.models_available[mk]
+    seg, k, w = case["segment"], case["k"], case["weight_cp"]
+    rtype = case["range_type"]
+    P = md.get_parameter_defaults()
+    if "E" in P and not P["E"].expr:
+        P["E"].set(value=tr["E"] * 1.3)
+    P["contact_point"].set(value=CP + 4e-8)
+    P["baseline"].set(value=tr["baseline"] * 0.5)
+    for name in case["fixed"]:
+        P[name].set(vary=False)
+    init = {n: (P[n].value, P[n].vary, P[n].min, P[n].max, P[n].expr)
+            for n in P}
+    rx = range_of(case["range"], idnt, seg, rtype)
+
+    def viol(clause, wit, detail):
+        out.append(V(PROP, clause, site=f"{mk}:{rtype}", witness=wit,
+                     detail=detail, case=case, kind="grid"))
+    try:
+        idnt.fit_model(model_key=mk, params_initial=P, segment=seg,
+                       range_x=rx, range_type=rtype, weight_cp=w, gcf_k=k)
+    except BaseException as e:
+        if isinstance(e, (KeyboardInterrupt, SystemExit, MemoryError)):
+            raise
+        return out, ("raises", type(e).__name__)
+    label = consistency(idnt, mk, seg, k, w, init, viol, case["range"])
+    if label != "success":
+        return out, (label, case["range"])
     return out, ("success", len(case["fixed"]))
 
 
@@ -289,7 +303,45 @@ def cases(tier):
     return cs
 
 
+class FittedStates(c03.Broad):
+    """C03's broad alphabet: the same output relations as an invariant in
+    every fitted state reached by a history (odd orders of preprocessing,
+    refits, model changes, plateau search, failed calls)"""
+    name = "fitted_states"
+    prop = PROP
+
+    def check_transition(self, pre, op, obs, w, hops):
+        return []
+
+    def check_state(self, w, hops):
+        idnt = w.idnt
+        fp = idnt.fit_properties
+        out = []
+        if "hash" not in fp or "tip position" not in idnt:
+            return out
+        mk = fp.get("model_key", "hertz_para")
+        case = self.case(hops)
+
+        def viol(clause, wit, detail):
+            out.append(V(PROP, clause, site=f"state:{mk}", witness=wit,
+                         detail=detail, case=case, kind="hist"))
+        pi = fp.get("params_initial")
+        init = {n: (pi[n].value, pi[n].vary, pi[n].min, pi[n].max,
+                    pi[n].expr) for n in pi} if pi is not None else {}
+        consistency(idnt, mk, fp.get("segment", 0), fp.get("gcf_k", 1.0),
+                    fp.get("weight_cp", 1e-6), init, viol, "history")
+        return out
+
+    def state_stats(self, w):
+        return {"fitted_states": int("hash" in w.idnt.fit_properties)}
+
+
+DRIVERS = {"fitted_states": FittedStates()}
+
+
 def replay(doc):
+    if doc.get("kind") == "hist":
+        return hist.replay_case(doc["case"])
     return case_fn(doc["case"])[0]
 
 
@@ -307,6 +359,11 @@ def run(tier):
             "non-trivial = the fit completed successfully (every output "
             "relation is then evaluated); unsuccessful cells check the NaN "
             "rule")
+    # the same relations as an invariant over fitted states of histories
+    depth = 2 if tier == "quick" else 3
+    seen, info = hist.search(DRIVERS["fitted_states"], rep, depth,
+                             merge_check=False)
+    rep.set("history_depth", depth)
     rep.set("exhaustive", True)
     rep.sample(cs[0])
     rep.sample(cs[len(cs) // 2])
